@@ -50,6 +50,7 @@ def one_ph(srcs, exact=False):
             l = lit(line.tokens[0])
             return l is not None and ("lit:" + l) in srcs
         return x[0] in srcs and (fmt_exact(x[1]) if exact else x[1] == "")
+    pred.srcs = srcs
     return pred
 
 
@@ -115,7 +116,7 @@ def global_header_oracle(o):
     return [
         Spec("version", one_ph(o["version"]), f"version line from {o['version']}"),
         Spec("nvars", one_ph(o["ncount"]), f"field count = {o['ncount']}"),
-        ("REP", o["names_count"], [Spec("name", one_ph(o["namevar"]), "one field name per line")], o.get("names_over")),
+        ("REP", o["names_count"], [Spec("name", one_ph({o["namevar"], "$VAR"}), "one field name per line")], o.get("names_over")),
         Spec("ndims", one_ph(o["ndims"]), f"dimensionality {o['ndims']}"),
         Spec("time", one_ph(o["time"], exact=True), "time, round-trip exact"),
         Spec("max_level", one_ph(L), f"finest level = {L}"),
@@ -138,7 +139,7 @@ def global_header_oracle(o):
     ]
 
 
-def match_writer(ctx, rule, fi, items, oracle, path="Header"):
+def match_writer(ctx, rule, fi, items, oracle, path="Header", loopvar=None):
     site = fi.site
     if len(items) != len(oracle):
         names = [o.slot if isinstance(o, Spec) else f"REP:{o[1]}" for o in oracle]
@@ -167,6 +168,10 @@ def match_writer(ctx, rule, fi, items, oracle, path="Header"):
                     ok_all = False
                     continue
                 ok = o.pred(c)
+                if not ok and "$VAR" in getattr(o.pred, "srcs", ()) and loopvar is not None and len(c.tokens) == 1:
+                    # the line is the loop variable of the enclosing repeat, whatever it is called
+                    x = ph(c.tokens[0])
+                    ok = x is not None and x[0] == loopvar and x[1] == ""
                 ctx.check(ok, rule, site, f"{path}/{o.slot}: {o.desc}",
                           f"{path}/{o.slot}: writes `{c.show()}`; the reader expects {o.desc}",
                           key=f"line:{path}/{o.slot}", where=loc(fi, c.node), objects={"written": c.show()})
@@ -184,7 +189,8 @@ def match_writer(ctx, rule, fi, items, oracle, path="Header"):
                       f"{path}: block is written {it.count} times (over {it.over}); the reader repeats it "
                       f"{sorted(counts)} times", key=f"count:{path}/{sorted(counts)[0]}", where=loc(fi, it.node))
             ok_all &= ok
-            ok_all &= match_writer(ctx, rule, fi, it.body, body, path + "/" + sorted(counts)[0])
+            ok_all &= match_writer(ctx, rule, fi, it.body, body, path + "/" + sorted(counts)[0],
+                                   loopvar=getattr(it, "var", None))
     return ok_all
 
 
